@@ -212,7 +212,7 @@ def _bookkeeping():
     except Exception:
         pass
 _bookkeeping()
-REQUIRED_COUNTERS = ['sel', 'dist', 'seatless', 'tie_in_result', 'modelled', 'refusal', 'few_votes', 'all_equal', 'truncation_empties', 'rotation']
+REQUIRED_COUNTERS = ['sel', 'dist', 'seatless', 'tie_in_result', 'modelled', 'refusal', 'few_votes', 'all_equal', 'truncation_empties', 'rotation', 'score_tied']
 RULE = ('every evaluator family built from the public selector/distributor classes of votelib.evaluate.* (shared table harness/families.py + the local '
         'list in this module: open list, list tie-breaker, auxiliary selectors, AlternativeThresholds, the subtract over-award policy, score voting with '
         'truncation) with its admissible vote type (simple, approval, ranked incl. shared ranks, score, pairwise through the real converter) x generated '
@@ -263,6 +263,14 @@ def generate(rng, tier):
             w = str(rng.choice([1, 2, 3]))
             yield {'op': 'shape', 'family': f.name, 'prof': [[base[i:] + base[:i], w] for i in range(m)], 'n': m - 1,
                    '_tags': [f.kind, 'rotation']}
+    # directed: tie-heavy score profiles (narrow grade band, full ballots, 4-5 candidates) for every seat count: the tie-break
+    # branches of majority judgment / STAR / score voting, incl. several candidates separating in one tie-break step
+    for f in F:
+        if fam_mod.base_vtype(f.vtype) == 'score':
+            for t in range((150 if 'majority_judgment' in f.name else 30) if tier == 'quick' else 600):
+                m = rng.choice([4, 4, 5])
+                prof = fam_mod.gen_score_tied(rng, m)
+                yield {'op': 'shape', 'family': f.name, 'prof': prof, 'n': rng.choice([2, 3, 3, 3, 4]), '_tags': [f.kind, 'score_tied']}
     yield {'op': 'shape', 'family': 'score_median_trunc_quarter', 'prof': [[[[0, 3], [1, 2]], '2'], [[[0, 1]], '8']], 'n': 1,
            '_tags': ['sel', 'truncation_empties']}
     if tier == 'thorough':
